@@ -60,6 +60,7 @@ Ltac t0 := intros; unfold upd in *; cbn in *; beq; cbn in *; fin.
 Ltac rw_st := repeat match goal with
   | E : lc_st _ = _ |- _ => rewrite E in *
   | E : sc_st _ = _ |- _ => rewrite E in *
+  | E : sc_isA _ = _ |- _ => rewrite E in *
   end; cbn in *.
 Ltac rw_eqs := repeat match goal with
   | E : lc_t _ = _ |- _ => rewrite E in *; clear E
